@@ -258,6 +258,18 @@ pub enum SigEnv {
 
 thread_local! {
     static SIG_ENV: std::cell::Cell<SigEnv> = std::cell::Cell::new(SigEnv::Default);
+    static NOFILE: std::cell::Cell<Option<u64>> = std::cell::Cell::new(None);
+}
+
+/// Like `run`, with the process limited to `n` open descriptors (RLIMIT_NOFILE, set from outside
+/// right after the spawn: the dynamic loader and the runtime have what they need by then or get it
+/// within the limit, and every later open() of the program counts against it).
+pub fn run_nofile(r: Run, n: u64) -> ProcOut {
+    let _g = EXCLUSIVE.read().unwrap_or_else(|e| e.into_inner());
+    NOFILE.with(|c| c.set(Some(n)));
+    let out = run_inner(r, None);
+    NOFILE.with(|c| c.set(None));
+    out
 }
 
 /// Like `run`, with the given SIGPIPE disposition / mask inherited by the process.
@@ -461,6 +473,10 @@ fn run_inner(r: Run, arg0: Option<&str>) -> ProcOut {
     unsafe {
         let lim = libc::rlimit { rlim_cur: r.cpu_secs, rlim_max: r.cpu_secs + 1 };
         libc::prlimit(pid, libc::RLIMIT_CPU, &lim, std::ptr::null_mut());
+        if let Some(n) = NOFILE.with(|c| c.get()) {
+            let lim = libc::rlimit { rlim_cur: n, rlim_max: n };
+            libc::prlimit(pid, libc::RLIMIT_NOFILE, &lim, std::ptr::null_mut());
+        }
     }
     let done = Arc::new(AtomicBool::new(false));
     let timed_out = Arc::new(AtomicBool::new(false));
